@@ -230,7 +230,19 @@ func (s *c20) Final(w *World) *Violation {
 		if !split.Rs[r.Root.Cid] {
 			continue // content-not-found envelope, as in C02
 		}
-		if SkipCountDesync(sub, csel, split) || RefLoadsPathTwice(sub, csel, split) {
+		// (a sibling's stored blocks can let this request descend where it could not alone: the
+		// recorded C02 input classes are looked for over everything either peer holds, too)
+		both := Split{Rq: map[cid.Cid]bool{}, Rs: split.Rs}
+		for c := range split.Rq {
+			both.Rq[c] = true
+		}
+		for c := range split.Rs {
+			both.Rq[c] = true
+		}
+		// (with siblings storing into the same store the offline prefix of this request can be anything
+		// up to its whole traversal: the skip-count class is taken as soon as the two peers' link
+		// sequences differ anywhere)
+		if SkipCountDesync(sub, csel, split) || LinkSeqDiverge(sub, csel, both, 1<<30) || RefLoadsPathTwice(sub, csel, split) || RefLoadsPathTwice(sub, csel, both) {
 			w.Probe("c20-skip-known-c02-input-class")
 			continue
 		}
